@@ -177,8 +177,11 @@ pub fn fan_out(world: &str, tier: &str, seed: u64, runs: u64, jobs: usize, extra
         let st = child.wait().map_err(|e| e.to_string())?;
         if !st.success() {
             let _ = std::fs::remove_file(&out);
-            return Err(format!("worker exited with {:?}", st.code()));
+            let progress = std::fs::read_to_string(out.with_extension("progress")).unwrap_or_default();
+            let _ = std::fs::remove_file(out.with_extension("progress"));
+            return Err(format!("worker exited with {:?} while executing run index {} (reproduce: sim worker {} {} {} <i> <i+1> /tmp/x.json)", st.code(), progress.trim(), world, tier, seed));
         }
+        let _ = std::fs::remove_file(out.with_extension("progress"));
         let text = std::fs::read_to_string(&out).map_err(|e| format!("worker output {}: {}", out.display(), e))?;
         let agg: Agg = serde_json::from_str(&text).map_err(|e| format!("worker output parse: {}", e))?;
         let _ = std::fs::remove_file(&out);
@@ -283,4 +286,11 @@ pub fn write_evidence(e: EvidenceIn) -> Result<(), String> {
         "violations": e.violations,
     });
     write_json(&evidence_path(e.property), &v)
+}
+
+/// Called by workers before each run: remembers which run index is executing, so that a process abort
+/// (stack overflow, OOM kill) inside the system under test can be attributed to one run.
+pub fn note_progress(out_file: &str, index: u64) {
+    let p = Path::new(out_file).with_extension("progress");
+    let _ = std::fs::write(p, index.to_string());
 }
